@@ -335,6 +335,8 @@ def run(ctx):
     import logging
     import warnings
     logging.disable(logging.CRITICAL)
+    import numpy  # noqa (numpy installs an 'always' filter for RankWarning at import time)
+    import gnpy.core.elements  # noqa
     warnings.simplefilter('ignore')
     from gnpy.core.parameters import SimParams
     rng = ctx.rng
